@@ -158,10 +158,14 @@ def run(ctx):
             ncz = 0
             order = []      # measurement order (qubits)
             # classical bit of a measurement: its position in the outcome record, or (the usual Qiskit idiom) the qubit's own index
-            natural = (hash(key) % 2 == 0)
+            # ... or crossed (clbit = nq - 1 - qubit): the classical bit index then differs from both the qubit index and the measurement order
+            mapping = hash(key) % 3
+            natural = mapping == 0
+            clbit_of = {}
             for (op, cond) in key:
                 if op == 0:
-                    circ.measure(qr[cond[0]], cr[cond[0] if natural else len(order)])
+                    clbit_of[cond[0]] = cond[0] if mapping == 0 else (len(order) if mapping == 1 else nq - 1 - cond[0])
+                    circ.measure(qr[cond[0]], cr[clbit_of[cond[0]]])
                     order.append(cond[0])
                     names.append(f"measure({cond[0]})")
                     continue
@@ -171,7 +175,7 @@ def run(ctx):
                 def add(c_):
                     getattr(c_, o["name"])(*o["args"], *[qr[q_] for q_ in o["qubits"]])
                 if len(cond) == 2:
-                    pos = cond[0] if natural else order.index(cond[0])
+                    pos = clbit_of[cond[0]]
                     with circ.if_test((cr[pos], cond[1])):
                         add(circ)
                     names.append(f"if c[{pos}]=={cond[1]}: {o['name']}{o.get('key', '')}{o['qubits']}")
@@ -190,7 +194,7 @@ def run(ctx):
                     sim_ = pq.PureFockSimulator(d=d, config=pq.Config(cutoff=nq + 2 * ncz + 1, seed_sequence=5))
                     result = sim_.execute(prog, shots=None)
                 except Exception as e:  # noqa
-                    ctx.report(f"C19:raises:{type(e).__name__}:{'cz' if ncz else 'nocz'}:{'cond' if any(len(c) == 2 for _, c in key) else 'plain'}:{'clbit=qubit' if natural and order and order[0] != 0 else 'clbit=position'}",
+                    ctx.report(f"C19:raises:{type(e).__name__}:{'cz' if ncz else 'nocz'}:{'cond' if any(len(c) == 2 for _, c in key) else 'plain'}:{'clbit=qubit' if natural and order and order[0] != 0 else ('clbit=position' if mapping < 2 else 'clbit=crossed')}",
                                f"translation / execution raised {type(e).__name__}: {str(e)[:120]} for {names}", replay)
                     continue
                 got = {}
